@@ -215,6 +215,18 @@ func runMix(run *rep.Run, m mix, id int) {
 		}
 		nonce := fmt.Sprintf("x%ds%d", id, si)
 		body := []byte(fmt.Sprintf(`{"model":"mall","max_tokens":32,"stream":%v,"system":"be brief","messages":[{"role":"user","content":"nonce=%s hello"}]}`, stream, nonce))
+		// the same document as clients really send it: compact, with a trailing newline
+		// (json.Encoder, curl --data-binary @file), CRLF, or indented with blank lines around it
+		switch (id + si) % 5 {
+		case 1:
+			body = append(body, '\n')
+		case 2:
+			body = append(body, '\r', '\n')
+		case 3:
+			body = append([]byte("\n  "), append(bytes.ReplaceAll(body, []byte(`,"`), []byte(",\n  \"")), []byte("\n\n")...)...)
+		case 4:
+			body = append([]byte(" \t"), append(body, ' ', ' ')...)
+		}
 		req, _ := http.NewRequest("POST", w.Base+"/olla/anthropic/v1/messages", bytes.NewReader(body))
 		req.Header.Set("Content-Type", "application/json")
 		req.Header.Set("anthropic-version", "2023-06-01")
